@@ -77,6 +77,34 @@ def alignment_branch(repo: Repo) -> RuleRun:
         )
         r.check(untouched.get("grading")._name == "own2", cn, "wires without coincidents untouched", "copy_neighbours changes a wire that has no coincident wire", cn.node, key=f"copy_neighbours:{label}:other")
 
+    # one axis, two defined neighbours of different orientation (a block between an upright and an upside-down one): the alignment is
+    # decided wire by wire, not once per axis
+    d, e = Sym("vd"), Sym("ve")
+    for order in ((True, False), (False, True)):
+        ws, want = [], []
+        for i, (aligned, ends) in enumerate(zip(order, ((a, b), (d, e)))):
+            w = _wire(repo, f"w{i}", *ends)
+            w.set("grading", grading(f"own{i}", False))
+            co = _wire(repo, f"co{i}", *(ends if aligned else ends[::-1]))
+            co.set("grading", grading(f"G{i}", True))
+            w.set("coincidents", {co})
+            ws.append(w)
+            want.append(f"G{i}" if aligned else f"G{i}.inverted")
+        mgr = Obj("mgr", cls=repo.cls("items.wires.manager.WirePropagateManager"))
+        mgr.set("wires", ws)
+        mgr.set("chops", [])
+        _run(Evaluator(repo=repo, module=cn.module), cn, [mgr])
+        got = [w.get("grading")._name for w in ws]
+        label = "first wire aligned, second anti-aligned" if order[0] else "first wire anti-aligned, second aligned"
+        r.check(
+            got == want,
+            cn,
+            f"two neighbours, {label}: {got}",
+            f"copy_neighbours on an axis whose two wires meet differently oriented neighbours ({label}): the wires end with {got}, expected {want} - the orientation of the first neighbour is applied to the "
+            "second: one of the two shared edges carries the neighbour's cell sequence the wrong way round",
+            cn.node,
+            key=f"copy_neighbours:mixed:{'af' if order[0] else 'fa'}",
+        )
     # WirePropagateManager.grade(): the coincident gradings are copied on EVERY grade, also when the chops have already arrived
     gr = repo.func("items.wires.manager.WirePropagateManager.grade")
     for n_chops in (0, 2):
@@ -605,4 +633,24 @@ def no_rounding(repo: Repo) -> RuleRun:
 no_rounding.rule_id = "C04.NO-ROUNDING"
 
 
-RULES = [alignment_branch, simple_only_if_equal, preserve_carried, results_before_copy, axis_direction, coincidence_complete, grade_idempotent, axis_length, inversion_complete, live_grading_length, no_rounding]
+def no_memo(repo: Repo) -> RuleRun:
+    """'a block is written with a single expansion per direction only if its four edges really have equal gradings' - as they are when the file is written: nothing in the wire managers / gradings memoises a view of state that a later grading pass changes. Same rule body as C03.NO-MEMO."""
+    from ..memo import memo_rule
+
+    return memo_rule(repo, PROP, "C04.NO-MEMO", ("grading.", "items.wires.", "items.block"), floor=0)
+
+
+no_memo.rule_id = "C04.NO-MEMO"
+
+
+def alignment_symmetry(repo: Repo) -> RuleRun:
+    """'reversed order with reciprocal expansions when opposite': whether two axes / wires run the same way is answered for the pair asked about, every time. Same rule as C01.COINCIDENCE-SYMMETRY."""
+    from ..report import rebrand
+
+    return rebrand(c01.coincidence_symmetry(repo), PROP, "C04.ALIGNMENT-SYMMETRY")
+
+
+alignment_symmetry.rule_id = "C04.ALIGNMENT-SYMMETRY"
+
+
+RULES = [alignment_branch, simple_only_if_equal, preserve_carried, results_before_copy, axis_direction, coincidence_complete, grade_idempotent, axis_length, inversion_complete, live_grading_length, no_rounding, no_memo, alignment_symmetry]
